@@ -73,7 +73,18 @@ func genPItem(r *simrt.Rand, dim, nIds int, cos bool, grid bool) PItem {
 	if r.Bool(0.25) {
 		lvl = r.Range(1, 3)
 	}
-	return PItem{Id: r.Intn(nIds), Vec: genVec(r, dim, grid, cos), Meta: genMeta(r, true), Lvl: lvl}
+	it := PItem{Id: r.Intn(nIds), Vec: genVec(r, dim, grid, cos), Meta: genMeta(r, true), Lvl: lvl}
+	if r.Bool(0.04) { // shapes the snapshot format cannot hold: must be rejected without any effect
+		switch r.Intn(3) {
+		case 0:
+			it.Meta = map[string]string{strings.Repeat("K", 256): "x"}
+		case 1:
+			it.Meta = map[string]string{"big": strings.Repeat("V", 65536)}
+		case 2:
+			it.Meta = map[string]string{"a": "1", strings.Repeat("K", 300): strings.Repeat("V", 70000)}
+		}
+	}
+	return it
 }
 
 func genPartCase(r *simrt.Rand, maxEntries int) PartCase {
